@@ -274,6 +274,16 @@ static Spec3 polar(const std::string& name, bool heights, bool second_station, b
   return s;
 }
 
+// nearly horizontal sights on which the instrument / target heights change the sign of the height difference: marks ascending but the
+// line of sight descending (T1), marks descending but the line of sight ascending (T2); T3 an ordinary sight, T4 fixed
+static Spec3 flat_sights() {
+  Spec3 s = polar("polar-flat-sights", true, false); Q Z0 = 300;
+  Q dz[4] = {Q(1, 2), Q(-1, 2), Q(20), Q(-3)}, th[4] = {Q(1, 5), Q(5, 2), Q(13, 10), Q(3, 2)};
+  for (int i = 0; i < 4; i++) s.pts[i + 1].z = Z0 + dz[i];
+  s.st[0].ih = Q(8, 5);
+  for (auto& ob : s.st[0].obs) if (ob.kind != 0) ob.th = th[ob.to - 1];
+  return s;
+}
 // a free station whose coordinates (height included) are left to Acord2, tied to three fixed points and surveying two new points whose
 // coordinates are omitted as well: the height of the station has to be derived first (from zenith angles and distances to the fixed
 // points), the heights of the new points from it
@@ -465,6 +475,8 @@ static void gen_cases(const sx::Options& opt, std::vector<sx::Case>& cases) {
   if (on("C06")) {
     add("net3d/consistent/two-azimuths-perturbed/envelope/given", "spatial networks", [] { case_consistent_text("point intersected by two azimuths, approximate coordinates 0.5 m off", TEXT_TWO_AZIMUTHS, {{"P", 1100, 1250, 0, true, false}}, 0, true, true); });
     add("net3d/consistent/traverse-start-seen-from-oriented-station/cholesky/acord", "spatial networks", [] { case_consistent_text("traverse whose start station is observed from another oriented station", TEXT_TRAVERSE_START_SEEN_FROM_ORIENTED_STATION, {{"1", 1150, 1250, 0, true, false}, {"2", 1300, 1400, 0, true, false}, {"3", 1450, 1700, 0, true, false}}, 1, false, false); }); }
+  if (on("C06")) { auto sp = std::make_shared<Spec3>(flat_sights()); add("net3d/consistent/" + sp->name + "/envelope/given", "spatial networks", [sp] { case_consistent(*sp, 0, false); });
+    add("net3d/consistent/" + sp->name + "/gso/acord", "spatial networks", [sp] { case_consistent(*sp, 2, true); }); }
   if (on("C13")) { for (int v = 0; v < 2; v++) add(std::string("net3d/export-description/") + (v ? "station-height" : "sight-heights"), "spatial networks", [v] { case_export_description(v != 0); });
     add("net3d/export-description/station-height-covmat", "spatial networks", [] { case_export_description(true, "ne", "left-handed", true); });
     add("net3d/export-description/station-height-degrees", "spatial networks", [] { case_export_description(true, "ne", "left-handed", false, true); });
